@@ -96,7 +96,27 @@ type c12Outcome struct {
 
 // runMisuse executes one call sequence on an explicitly owned writer and applies the C12 oracles.
 // It returns nil when the property held.
+// poisonPools makes pooled writers of the same goroutine fail first: the states and writers they
+// release are the ones an explicitly owned writer recycles next. Other code of the same process using
+// pooled writers (and failing) is part of the environment of every explicitly owned writer.
+func poisonPools() {
+	runner.Catch(func() {
+		mw := spec.NewMessageWriter()
+		mw.Field(1).Message()    // nested message left open
+		_ = mw.Field(2).Int32(1) // misuse: fails the pooled writer, which releases its state
+		lw := spec.NewListWriterBuffer(buffer.New())
+		lw.Message()
+		_ = lw.Int32(1)
+		vw := spec.NewValueWriter()
+		_ = vw.Int32(1)
+		_ = vw.Int32(2) // second root value: error
+	})
+}
+
 func runMisuse(ops []byte, useBuffer bool) (out *c12Outcome, rootBuilds int, errorsSeen int) {
+	if len(ops) > 0 && (int(ops[len(ops)-1])+len(ops))%4 == 0 {
+		poisonPools()
+	}
 	var w spec.Writer
 	if useBuffer {
 		w = spec.NewWriterBuffer(buffer.New())
@@ -371,7 +391,7 @@ type c12Witness struct {
 // C12: writer misuse.
 func C12(c *runner.Cfg) *report.Result {
 	res := report.New("C12", "")
-	res.Rule = fmt.Sprintf("call sequences over an explicitly owned writer and its handles: bounded-exhaustive over a %d-op alphabet up to the tier's length, plus seeded random sequences over %d ops (stale handle copies, Any(empty), Merge/Copy, Len, Reset on dirty buffers, Free mid-program); oracles: no call panics; first error sticky (every later error-returning call returns that error, Build never succeeds after it); a successful root Build parses completely; Free (also twice, also after an error) is safe; after Reset a reference program yields the reference bytes; non-trivial = the sequence produced an error or a root Build; distinct = distinct sequences", numReduced, numOps)
+	res.Rule = fmt.Sprintf("call sequences over an explicitly owned writer and its handles: bounded-exhaustive over a %d-op alphabet up to the tier's length, plus seeded random sequences over %d ops (stale handle copies, Any(empty), Merge/Copy, Len, Reset on dirty buffers, Free mid-program); a quarter of the programs run after pooled writers of the same goroutine have failed and released their state (the state an owned writer recycles next); oracles: no call panics; first error sticky (every later error-returning call returns that error, Build never succeeds after it); a successful root Build parses completely; Free (also twice, also after an error) is safe; after Reset a reference program yields the reference bytes; non-trivial = the sequence produced an error or a root Build; distinct = distinct sequences", numReduced, numOps)
 	record := func(stream string, idx int, ops []byte, useBuf bool) {
 		res.Eval(1)
 		out, roots, errs := runMisuse(ops, useBuf)
@@ -434,6 +454,11 @@ func C12(c *runner.Cfg) *report.Result {
 		{opWMessage, opMFieldInt, opMFieldList, opLLen, opLInt, opLLen, opLEnd, opMEnd}, // Len of a nested list
 		{opWMessage, opMFieldAnyEmpty, opMFieldInt, opM0Build},                          // rejected Any then sticky
 		{opWList, opLMessage, opMFieldInt, opLEnd, opMEnd, opL0Build},                   // wrong nesting order
+		// valid programs: more than 64 KiB written after a higher tag (the table is sorted by tag, the offsets follow the write order)
+		{opWMessage, opM0FieldInt, opMFieldBytesBig, opM0Build},
+		{opWMessage, opMFieldAny, opM0FieldInt, opMFieldBytesBig, opMFieldInt, opM0Build},
+		{opWList, opLMessage, opM0FieldInt, opMFieldBytesBig, opMEnd, opL0Build},
+		{opWMessage, opMFieldInt, opM0Build, opMFieldInt, opWMessage, opErr}, // calls after the root Build
 	}
 	for i, ops := range fixed {
 		record("fixed", i, ops, false)
